@@ -94,8 +94,20 @@ def _bound_value(fa, e, at):
     return None
 
 
+def enum_members(fa, e):
+    """`Cls.member` expressions of a repository Enum class named by `e`, in definition order, else None."""
+    if not isinstance(e, ast.Name) or fa.df.is_local(e.id):
+        return None
+    cl = fa.ck.repo.classes_named(e.id)
+    if len(cl) != 1 or not any(A.norm(b).split(".")[-1] in ("Enum", "IntEnum", "Flag") for b in cl[0].node.bases):
+        return None
+    return [ast.Attribute(value=ast.Name(id=e.id, ctx=ast.Load()), attr=t.id, ctx=ast.Load())
+            for st in cl[0].node.body if isinstance(st, ast.Assign) for t in st.targets if isinstance(t, ast.Name)]
+
+
 def _literal_seq(fa, it, at, _depth=0):
-    """Elements of a literal tuple / list / set (possibly bound to a local, module-level or class-level name), else None."""
+    """Elements of a literal tuple / list / set (possibly bound to a local, module-level or class-level name), or the
+    members of a repository Enum class that is iterated; else None."""
     if isinstance(it, (ast.Tuple, ast.List, ast.Set)):
         return list(it.elts)
     if _depth > 4:
@@ -107,12 +119,106 @@ def _literal_seq(fa, it, at, _depth=0):
         if isinstance(it, ast.Name) and fa.df.is_local(it.id):
             at = fa.df.reaching(at, it.id)[0].node
         return _literal_seq(fa, v, at, _depth + 1)
+    return enum_members(fa, it)
+
+
+def subst(expr, mapping):
+    """Copy of `expr` with the names of `mapping` replaced by expressions; `getattr(x, "name")` is read as `x.name`."""
+    class T(ast.NodeTransformer):
+        def visit_Name(self, n):
+            if isinstance(n.ctx, ast.Load) and n.id in mapping:
+                return copy.deepcopy(mapping[n.id])
+            return n
+
+        def visit_Call(self, n):
+            self.generic_visit(n)
+            if isinstance(n.func, ast.Name) and n.func.id == "getattr" and len(n.args) == 2 and not n.keywords \
+                    and isinstance(n.args[1], ast.Constant) and isinstance(n.args[1].value, str) and n.args[1].value.isidentifier():
+                return ast.Attribute(value=n.args[0], attr=n.args[1].value, ctx=ast.Load())
+            return n
+    return T().visit(copy.deepcopy(expr))
+
+
+def bind_target(target, elem):
+    """{name: expression} for `target` bound to the element `elem` of a literal sequence, else None."""
+    if isinstance(target, ast.Name):
+        return {target.id: elem}
+    if isinstance(target, (ast.Tuple, ast.List)) and isinstance(elem, (ast.Tuple, ast.List)) and len(target.elts) == len(elem.elts):
+        out = {}
+        for t, e in zip(target.elts, elem.elts):
+            sub = bind_target(t, e)
+            if sub is None:
+                return None
+            out.update(sub)
+        return out
     return None
+
+
+def static_truth(t):
+    """Truth of a test over constants and global dotted names (enum members, classes), when that is evident."""
+    if isinstance(t, ast.Constant):
+        return bool(t.value)
+    if isinstance(t, ast.UnaryOp) and isinstance(t.op, ast.Not):
+        r = static_truth(t.operand)
+        return None if r is None else (not r)
+    if isinstance(t, ast.BoolOp):
+        rs = [static_truth(v) for v in t.values]
+        if isinstance(t.op, ast.And):
+            return False if any(r is False for r in rs) else (True if all(r is True for r in rs) else None)
+        return True if any(r is True for r in rs) else (False if all(r is False for r in rs) else None)
+    if isinstance(t, ast.Compare) and len(t.ops) == 1:
+        def atom(e):
+            if isinstance(e, ast.Constant):
+                return ("c", repr(e.value))
+            d = A.dotted(e)
+            return ("d", d) if d is not None and "." in d else None
+        op, l, r = t.ops[0], atom(t.left), t.comparators[0]
+        if l is None:
+            return None
+        if isinstance(op, (ast.Is, ast.IsNot, ast.Eq, ast.NotEq)):
+            ra = atom(r)
+            if ra is None:
+                return None
+            same = (l == ra)
+            return same if isinstance(op, (ast.Is, ast.Eq)) else (not same)
+        if isinstance(op, (ast.In, ast.NotIn)) and isinstance(r, (ast.Tuple, ast.List, ast.Set)):
+            ras = [atom(x) for x in r.elts]
+            if any(x is None for x in ras):
+                return None
+            found = l in ras
+            return found if isinstance(op, ast.In) else (not found)
+    return None
+
+
+def comprehension_elements(fa, gens, at):
+    """[{name: expression}] -- one binding per element that a single `for <target> in <literal sequence> [if ...]` clause
+    lets through, in order; None when the clause is not understood."""
+    if len(gens) != 1 or gens[0].is_async:
+        return None
+    g = gens[0]
+    seq = _literal_seq(fa, g.iter, at)
+    if seq is None:
+        return None
+    out = []
+    for el in seq:
+        b = bind_target(g.target, el)
+        if b is None:
+            return None
+        keep = True
+        for c in g.ifs:
+            tv = static_truth(subst(c, b))
+            if tv is None:
+                return None
+            keep = keep and tv
+        if keep:
+            out.append(b)
+    return out
 
 
 def table_entries(fa, expr, at, _depth=0):
     """(key, value) pairs of a dictionary-building expression: a literal (with ** parts), a comprehension over a
-    literal sequence, dict.fromkeys, `a | b`, a local / module-level name bound to one of these.  None if not understood."""
+    literal sequence (or over an Enum class, with simple filters), dict.fromkeys, dict(k=v), `a | b`, a local /
+    module-level name bound to one of these.  None if not understood."""
     if _depth > 6 or expr is None:
         return None
     if isinstance(expr, ast.Dict):
@@ -126,18 +232,20 @@ def table_entries(fa, expr, at, _depth=0):
             else:
                 out.append((k, v))
         return out
-    if isinstance(expr, ast.DictComp) and len(expr.generators) == 1 and not expr.generators[0].ifs:
-        g = expr.generators[0]
-        seq = _literal_seq(fa, g.iter, at)
-        if seq is not None and isinstance(g.target, ast.Name) and isinstance(expr.key, ast.Name) and expr.key.id == g.target.id \
-                and g.target.id not in A.names_in(expr.value):
-            return [(e, expr.value) for e in seq]
-        return None
+    if isinstance(expr, ast.DictComp):
+        bs = comprehension_elements(fa, expr.generators, at)
+        if bs is None:
+            return None
+        return [(subst(expr.key, b), subst(expr.value, b)) for b in bs]
     if isinstance(expr, ast.Call) and A.call_dotted(expr) == "dict.fromkeys" and len(expr.args) == 2:
         seq = _literal_seq(fa, expr.args[0], at)
         return [(e, expr.args[1]) for e in seq] if seq is not None else None
-    if isinstance(expr, ast.Call) and A.call_dotted(expr) == "dict" and len(expr.args) == 1 and not expr.keywords:
-        return table_entries(fa, expr.args[0], at, _depth + 1)
+    if isinstance(expr, ast.Call) and A.call_dotted(expr) == "dict" and len(expr.args) <= 1 and all(k.arg is not None for k in expr.keywords) \
+            and (expr.args or expr.keywords):
+        base = table_entries(fa, expr.args[0], at, _depth + 1) if expr.args else []
+        if base is None:
+            return None
+        return base + [(ast.Constant(value=k.arg), k.value) for k in expr.keywords]
     if isinstance(expr, ast.BinOp) and isinstance(expr.op, ast.BitOr):
         l, r = table_entries(fa, expr.left, at, _depth + 1), table_entries(fa, expr.right, at, _depth + 1)
         return None if l is None or r is None else l + r
@@ -148,6 +256,25 @@ def table_entries(fa, expr, at, _depth=0):
         return table_entries(fa, v, at, _depth + 1)
     return None
 
+
+def sequence_elements(fa, expr, at, _depth=0):
+    """Element expressions of a sequence-building expression, in order: a display, a comprehension / generator over a
+    literal sequence, tuple(...) / list(...) of one, a name bound to one.  None if not understood."""
+    if _depth > 5 or expr is None:
+        return None
+    if isinstance(expr, (ast.Tuple, ast.List)):
+        return None if any(isinstance(x, ast.Starred) for x in expr.elts) else list(expr.elts)
+    if isinstance(expr, (ast.ListComp, ast.GeneratorExp)):
+        bs = comprehension_elements(fa, expr.generators, at)
+        return None if bs is None else [subst(expr.elt, b) for b in bs]
+    if isinstance(expr, ast.Call) and A.call_dotted(expr) in ("tuple", "list") and len(expr.args) == 1 and not expr.keywords:
+        return sequence_elements(fa, expr.args[0], at, _depth + 1)
+    v = _bound_value(fa, expr, at)
+    if v is not None:
+        if isinstance(expr, ast.Name) and fa.df.is_local(expr.id):
+            at = fa.df.reaching(at, expr.id)[0].node
+        return sequence_elements(fa, v, at, _depth + 1)
+    return None
 
 
 # ---------------------------------------------------------------------------------------------
